@@ -84,10 +84,14 @@ type Req struct {
 	Chal     string    `json:"chal"` // the scope its challenge names
 	Body     string    `json:"body"` // none | plain | get | getfail
 	Auth     string    `json:"auth,omitempty"`
+	// HostHdr: the request's Host field (http.Request.Host, the Host header a client request
+	// sends) when the caller overrides it: another host's name, or "-" for the empty string.
+	// Empty: left as http.NewRequest sets it (= URL.Host). The request is sent to URL.Host either way.
+	HostHdr string `json:"host_hdr,omitempty"`
 }
 
 type Step struct {
-	Op  string `json:"op"` // start | resume | sleep | release
+	Op  string `json:"op"` // start | resume | sleep | release | cfgrelease
 	ID  int    `json:"id,omitempty"`
 	Req *Req   `json:"req,omitempty"`
 	Ms  int    `json:"ms,omitempty"`
@@ -97,6 +101,12 @@ type Step struct {
 	// freely (and queue on the lock when they are for the same host); what they do is observed
 	// after the held phase is over, one call at a time.
 	Hold bool `json:"hold,omitempty"`
+	// HoldCfg (start): the configuration is slow for this call's host: every
+	// Config.EntryForRegistry lookup for that host waits until a "cfgrelease" step. The call and
+	// all calls started or resumed meanwhile are not waited for (a call for the same host queues
+	// behind the lookup, or makes its own); after the release they run on together, and what
+	// they do is observed one call at a time, each phase marked at its first observable action.
+	HoldCfg bool `json:"hold_cfg,omitempty"`
 }
 
 type CaseIn struct {
@@ -170,6 +180,7 @@ type Observed struct {
 	Hung      bool     `json:"hung,omitempty"`
 	Ambiguous bool     `json:"ambiguous,omitempty"`
 	Realms    []string `json:"realms,omitempty"` // every realm named by a challenge sent
+	CfgWaited int      `json:"cfg_waited,omitempty"` // config lookups that waited at a closed gate
 }
 
 // ---------- the world ----------
@@ -213,6 +224,12 @@ type world struct {
 	threads map[int]*thr
 	cond    *sync.Cond // on mu: a phase ended / a gate opened
 	turn    *thr       // the late-observed call whose phase is being recorded
+	// the configuration gate (Step.HoldCfg): a stand-in "holder" that the calls launched while
+	// the gate is closed are observed behind, the host whose lookups wait, and what they wait on
+	cfg     *thr
+	cfgHost string
+	cfgCh   chan struct{}
+	cfgN    int // lookups that had to wait
 	quiet   bool
 	inFake  bool
 	touched bool
@@ -284,6 +301,9 @@ func (w *world) phaseEnd(t *thr) {
 
 // holder is the call held at the token server, if any (w.mu held).
 func (w *world) holder() *thr {
+	if w.cfg != nil && w.cfg.tokParked {
+		return w.cfg
+	}
 	for _, t := range w.threads {
 		if t.tokParked {
 			return t
@@ -295,16 +315,20 @@ func (w *world) holder() *thr {
 type reqBody struct {
 	w    *world
 	id   int
-	orig bool
+	orig bool // the body the caller supplied (else: one returned by GetBody)
 	r    *strings.Reader
 }
 
 func (b *reqBody) Read(p []byte) (int, error) { return b.r.Read(p) }
+
+// Close: a close by the transport itself is an observation, of the caller's body and of every
+// copy GetBody returned alike (the fake network closes what it is handed: that is the hand-over,
+// seen as the attempt).
 func (b *reqBody) Close() error {
 	b.w.mu.Lock()
 	inFake := b.w.inFake
 	b.w.mu.Unlock()
-	if b.orig && !inFake {
+	if !inFake {
 		b.w.log(Ev{Kind: "selfclose", ID: b.id})
 	}
 	return nil
@@ -703,8 +727,16 @@ func (w *world) call(tr http.RoundTripper, t *thr, rq *Req) {
 	if rq.Auth != "" {
 		req.Header.Set("Authorization", rq.Auth)
 	}
+	switch rq.HostHdr {
+	case "":
+	case "-":
+		req.Host = ""
+	default:
+		req.Host = rq.HostHdr
+	}
 	bodyFor(w, t.id, rq.Body, req)
 	beforeHdr := req.Header.Clone()
+	beforeHost := req.Host
 	beforeURL := req.URL.String()
 	beforeBody := req.Body
 	beforeGet := req.GetBody != nil
@@ -730,7 +762,7 @@ func (w *world) call(tr http.RoundTripper, t *thr, rq *Req) {
 		resp.Body.Close()
 		res.Denied = strings.Contains(string(data), "DENIED")
 	}
-	if !reflect.DeepEqual(beforeHdr, req.Header) || beforeURL != req.URL.String() ||
+	if !reflect.DeepEqual(beforeHdr, req.Header) || beforeURL != req.URL.String() || beforeHost != req.Host ||
 		beforeBody != req.Body || beforeGet != (req.GetBody != nil) || req.Context() != ctx {
 		w.mu.Lock()
 		w.touched = true
@@ -782,6 +814,16 @@ func Run(in *CaseIn) *Observed {
 	}
 	tr := ociauth.NewStdTransport(ociauth.StdTransportParams{
 		Config: configFunc(func(host string) (ociauth.ConfigEntry, error) {
+			w.mu.Lock()
+			var gate chan struct{}
+			if w.cfg != nil && w.cfg.tokParked && host == w.cfgHost && !w.quiet {
+				gate = w.cfgCh
+				w.cfgN++
+			}
+			w.mu.Unlock()
+			if gate != nil {
+				<-gate // a slow lookup (a credential helper, say)
+			}
 			h := w.host(host)
 			if h == nil {
 				return ociauth.ConfigEntry{}, nil
@@ -806,6 +848,11 @@ func Run(in *CaseIn) *Observed {
 			}
 			t := &thr{id: st.ID, gate: make(chan struct{}), sig: make(chan struct{}, 2), tokGate: make(chan struct{})}
 			w.mu.Lock()
+			if st.HoldCfg && w.holder() == nil {
+				// the gate closes; this call and the ones that follow are observed behind it
+				w.cfg = &thr{id: -1, done: true, tokParked: true}
+				w.cfgHost, w.cfgCh = st.Req.Host, make(chan struct{})
+			}
 			h := w.holder()
 			if h != nil {
 				// launched while h is held at the token server: observed later (see admit)
@@ -853,6 +900,25 @@ func Run(in *CaseIn) *Observed {
 			w.log(Ev{Kind: "resume", ID: st.ID})
 			t.gate <- struct{}{}
 			w.wait(t)
+		case "cfgrelease":
+			w.mu.Lock()
+			g := w.cfg
+			ok := g != nil && g.tokParked
+			var fs []*thr
+			if ok {
+				g.tokParked = false
+				g.relT = w.nowUs()
+				fs, g.followers = g.followers, nil
+				close(w.cfgCh)
+				w.cfg = nil
+				w.cond.Broadcast()
+			}
+			w.mu.Unlock()
+			for _, f := range fs {
+				if !w.hung {
+					w.wait(f)
+				}
+			}
 		case "release":
 			w.mu.Lock()
 			t := w.threads[st.ID]
@@ -879,6 +945,11 @@ func Run(in *CaseIn) *Observed {
 	// let whatever is still in flight finish, unobserved
 	w.mu.Lock()
 	w.quiet = true
+	if w.cfg != nil && w.cfg.tokParked {
+		w.cfg.tokParked = false
+		close(w.cfgCh)
+		w.cfg = nil
+	}
 	w.cond.Broadcast()
 	var parked, held []*thr
 	for _, t := range w.threads {
@@ -919,7 +990,7 @@ func Run(in *CaseIn) *Observed {
 	}
 	w.mu.Lock()
 	defer w.mu.Unlock()
-	obs := &Observed{Events: w.evs, Untouched: !w.touched, Hung: w.hung}
+	obs := &Observed{Events: w.evs, Untouched: !w.touched, Hung: w.hung, CfgWaited: w.cfgN}
 	for r := range w.realms {
 		obs.Realms = append(obs.Realms, r)
 	}
